@@ -120,11 +120,11 @@ type scfg struct {
 	RejectExt    string   `json:"rejectExt"` // reject=negotiate: the only extension the negotiator objects to ("" = all)
 	// RejectOnce: the negotiator objects the first time it is asked about that extension only (a
 	// callback with state of its own): an objection is an objection
-	RejectOnce bool `json:"rejectOnce"`
-	Custom       string   `json:"custom"`    // Upgrader.ProtocolCustom: "" | "select" (the callback parses the header itself) | "refuse" (reports it malformed)
-	Rbuf         int      `json:"rbuf"`      // Upgrader.ReadBufferSize (transport detail, not judged)
-	Wbuf         int      `json:"wbuf"`      // Upgrader.WriteBufferSize
-	Chunk        int      `json:"chunk"`     // the request arrives in reads of at most this many bytes (0: at once)
+	RejectOnce bool   `json:"rejectOnce"`
+	Custom     string `json:"custom"` // Upgrader.ProtocolCustom: "" | "select" (the callback parses the header itself) | "refuse" (reports it malformed)
+	Rbuf       int    `json:"rbuf"`   // Upgrader.ReadBufferSize (transport detail, not judged)
+	Wbuf       int    `json:"wbuf"`   // Upgrader.WriteBufferSize
+	Chunk      int    `json:"chunk"`  // the request arrives in reads of at most this many bytes (0: at once)
 }
 
 func caseVar(name string, v int) string {
@@ -178,6 +178,15 @@ func (q *sreq) render(rng *rand.Rand) []byte {
 		case "dup":
 			lines = append(lines, name+": "+val, caseVar(canon, rng.Intn(4))+": "+val)
 			return
+		case "unifold":
+			// not the token at all, but equal to it under Unicode case folding (Kelvin sign for k, long s
+			// for s): HTTP tokens are ASCII, "case-insensitively" means ASCII letters
+			lines = append(lines, name+": "+strings.NewReplacer("k", "\u212a", "K", "\u212a").Replace(val), name+"-Other: x")
+			if rng.Intn(2) == 0 {
+				lines[len(lines)-2] = name + ": " + strings.Replace(val, "s", "\u017f", 1)
+			}
+			lines = lines[:len(lines)-1]
+			return
 		default:
 			lines = append(lines, name+": "+wrong)
 		}
@@ -190,6 +199,8 @@ func (q *sreq) render(rng *rand.Rand) []byte {
 	switch q.WsVersion {
 	case "other":
 		lines = append(lines, "Sec-WebSocket-Version: 14")
+	case "contra": // two version lines that contradict each other, one of them 13 (the lines are shuffled below)
+		lines = append(lines, "Sec-WebSocket-Version: 13", "Sec-WebSocket-Version: "+[]string{"8", "14", "7", "130"}[rng.Intn(4)])
 	case "lead0": // not literally 13
 		lines = append(lines, "Sec-WebSocket-Version: "+[]string{"013", "0013", "13.0", "+13", "1 3"}[rng.Intn(5)])
 	default:
